@@ -7,6 +7,10 @@ from . import gen_cmd
 from . import gen_input
 from . import reftok
 
+# set by the batch worker: the thorough tier also draws larger inputs, more
+# workers and longer step caps (deeper bounds), not only more cases
+TIER = 'quick'
+
 PERSONALITIES = [
     'sticky', 'sticky', 'uniform', 'starve:main', 'starve:feeder',
     'starve:w', 'rr'
@@ -23,6 +27,9 @@ def gen_sched(rng, parallel=True, line=True):
         'lookahead': rng.choice([1, 2, 4, 8, 0]),  # 0 = unbounded
         'vpid_base': rng.choice([1000, 31000, 4194000]),
     }
+    if TIER == 'thorough':
+        sc['step_cap'] = 1000000
+        sc['wall_cap'] = 120.0
     if line and rng.random() < 0.7:
         sc['line_gap'] = rng.choice([[3, 9, 30], [20, 60, 200, 600],
                                      [100, 400, 1500]])
@@ -32,6 +39,8 @@ def gen_sched(rng, parallel=True, line=True):
 def gen_text(rng, small=False, feats=None):
     size = rng.choice([2, 3, 4, 6]) if small else rng.choice(
         [2, 3, 4, 6, 8, 12])
+    if TIER == 'thorough' and rng.random() < 0.25:
+        size = rng.choice([16, 25, 40])
     return gen_input.gen_script(rng, feats=feats, size=size)
 
 
@@ -70,6 +79,8 @@ def base_spec(rng,
     model = gen_cmd.gen_model(rng, toks, style=model_style)
     strat = rng.choice(list(strategies))
     j = rng.choice(list(jobs))
+    if TIER == 'thorough' and max(jobs) > 1 and rng.random() < 0.15:
+        j = rng.choice([6, 12, 16])
     opts = []
     if strat != 'hybrid' or rng.random() < 0.5:
         opts += ['--strategy', strat]
